@@ -342,6 +342,27 @@ theorem rag_table_chunk_raw (o : MdOpts) (c : RChunk) (cur : Str) (n : Nat) (hn 
   rw [e, readRaw_table .model hdr rest hne,
     Tabula.C15.table_roundtrip_model n hn (hdr :: rest) (by simp) hrect hbs]
 
+/-- the same for cells of ANY bytes — a backslash in front of a pipe, at the end of a cell, doubled:
+the table chunk of the PDF / RAG pipeline reads back as the grid of normalised cell texts -/
+theorem rag_table_chunk_raw_any (o : MdOpts) (c : RChunk) (cur : Str) (n : Nat) (hn : 1 ≤ n)
+    (hdr : List Str) (rest : List (List Str))
+    (hid : o.ids = false) (hpg : o.pages = false) (hw : writesHeading c cur = false)
+    (htext : c.text = render .model (hdr :: rest))
+    (hrect : Tabula.C15.Rect n (hdr :: rest)) :
+    readRaw (splitLines (chunkOut o c cur))
+      = { headings := [], items := [],
+          tables := [some ((hdr :: rest).map (List.map fun x => trim (nlToSpace x)))], paras := [] } := by
+  have e : chunkOut o c cur = render .model (hdr :: rest) := by
+    simp [chunkOut, hw, contentMd, chunkIdComment, chunkPageRef, hid, hpg, htext]
+  have hne : ∀ r ∈ hdr :: rest, r ≠ [] := by
+    intro r hr e'
+    have := hrect r hr
+    rw [e'] at this
+    simp at this
+    omega
+  rw [e, readRaw_table .model hdr rest hne,
+    Tabula.C15.table_roundtrip_model_any n hn (hdr :: rest) (by simp) hrect]
+
 /-- a paragraph chunk of one plain line is that paragraph -/
 theorem rag_para_chunk_raw (o : MdOpts) (c : RChunk) (cur : Str) (hid : o.ids = false) (hpg : o.pages = false)
     (hw : writesHeading c cur = false) (hnl : 10 ∉ c.text) (hplain : classify c.text = .para) :
